@@ -230,13 +230,17 @@ func runAdversary(r *vcore.Run) {
 		}()
 	}
 	run(func() { advTed(r) })
+	run(func() { advTedGroth16(r) })
 	run(func() { advEmu(r, "BN254", "ScalarMul", true) })
 	run(func() { advEmu(r, "P-256", "ScalarMul", true) })
 	run(func() { advNativeSW(r) })
+	run(func() { advEcdsaForge(r) })
 	if r.Thorough() {
 		run(func() { advEmu(r, "secp256k1", "ScalarMul", false) })
 		run(func() { advEmu(r, "P-256", "ScalarMul", false) })
 		run(func() { advEmu(r, "secp256k1", "JointScalarMulBase", false) })
+		run(func() { advPairing(r) })
+		run(func() { advCompiledSignatures(r) })
 	}
 	wg.Wait()
 }
